@@ -48,11 +48,15 @@ def do_import(src, name):
     print("imported", dst)
 
 
+ALL_PROPS = ["C%02d" % i for i in range(1, 21)]
+
+
 def run_one(name, props=None):
     d = os.path.join(SEEDED, name)
     meta = json.load(open(os.path.join(d, "meta.json")))
-    prop = meta["property"]
-    props = props or [prop]
+    keep = "property" not in meta          # a behaviour-preserving rewrite: no check may alarm
+    prop = meta.get("property", "none")
+    props = props or (ALL_PROPS if keep else [prop])
     if not repo_clean():
         print("refusing: /repo has uncommitted changes")
         return None
@@ -63,7 +67,7 @@ def run_one(name, props=None):
             res["error"] = "patch does not apply: " + r.stderr[-300:]
             return res
         os.makedirs("/tmp/seed", exist_ok=True)
-        if os.path.exists(os.path.join(d, "demo.sh")):
+        if os.path.exists(os.path.join(d, "demo.sh")) and not keep:
             r = sh(["bash", os.path.join(d, "demo.sh"), REPO], cwd=d, timeout=600)
             res["demo_exit"] = r.returncode
             res["demo_tail"] = (r.stdout + r.stderr)[-600:]
@@ -79,6 +83,7 @@ def run_one(name, props=None):
     finally:
         sh(["git", "-C", REPO, "checkout", "--", "."])
     res["caught_by"] = sorted(p for p, c in res["checks"].items() if c["exit"] != 0)
+    res["expect"] = "no alarm" if keep else "caught"
     dump_json(os.path.join(d, "result.json"), res)
     return res
 
